@@ -69,7 +69,12 @@ def handleC15 (op : String) (input impl : Json) : Except String Json := do
     -- `setlogfail`: a logged set whose reflog insert is made to fail (an SQL trigger installed by the
     -- harness): ref and log are written in one transaction, so it must fail and change nothing —
     -- for the model it is not an operation at all
-    let isFail := fun (o : Json) => opKind o == "setlogfail"
+    -- `rejrename` / `rejcopy` / `rejset` (file store, harness/c15.go `c15FsDomain` a7): a rename / copy
+    -- / set whose destination cannot be a file in the store's directory layout (it is an existing
+    -- directory, or lies below a bound name; the runner refuses the sequence otherwise). The
+    -- operation has to be refused and — a refused operation on a map changes nothing — is not an
+    -- operation for the model either: every later read must give what it gave before.
+    let isFail := fun (o : Json) => ["setlogfail", "rejrename", "rejcopy", "rejset"].contains (opKind o)
     let ops ← (opsJ.filter (fun o => !isFail o)).mapM ropOf
     let splice := fun (outs : List Json) =>
       let rec go (os : List Json) (rs : List Json) (acc : List Json) : List Json :=
